@@ -263,9 +263,11 @@ end Alerts
 
 /-! ## C'. reading two fields of one operation (status and error text)
 
-`Operation.SetError` writes phase and error text in ONE critical section of `op.mu`;
-`OperationTracker.unsafePinInfo` reads them through `op.ToTrackerStatus()` and `op.Error()`,
-i.e. in TWO critical sections (`split = true`). Each critical section is one atomic step here. -/
+`Operation.SetError` writes phase and error text in ONE critical section of `op.mu`.
+`OperationTracker.unsafePinInfo` reads them through `op.StatusSnapshot()`, one critical section
+(`split = false`; since add9366); before that fix it read them through `op.ToTrackerStatus()` and
+`op.Error()`, i.e. in TWO critical sections (`split = true`). Each critical section is one atomic
+step here. Which of the two applies today is a fact of the generated table (`Gen.snapshots`). -/
 namespace PairRead
 
 structure St where
@@ -322,6 +324,18 @@ structure Spawn where
   fn : Nat
   callee : Nat
   pos : Nat
+
+/-- a function that builds a snapshot of an atomic group of fields (fields written together in one
+critical section): in how many critical sections it reads them, how many distinct fields it reads -/
+structure Snapshot where
+  fn : Nat
+  sections : Nat
+  fields : Nat
+
+/-- every snapshot builder reads its group in ONE critical section (`PairRead` with `split = false`),
+and at least one builder of a multi-field snapshot was recognised -/
+def snapshotsOK (l : List Snapshot) : Bool :=
+  l.all (fun s => s.fields ≤ 1 || s.sections ≤ 1) && l.any (fun s => s.fields ≥ 2)
 
 def guardOf (gs : List Guard) (id : Nat) : Option Guard := gs.find? (fun g => g.id == id)
 
